@@ -20,17 +20,18 @@ NAME_FAMILIES = {'plain': ['src', 'mid', 'side', 'agg', 'tail'],
                  'suffix-pair': ['src', 'Sim', 'PreSim', 'agg', 'tail']}
 
 
-def make_body(k, max_stage):
+def make_body(k, max_stage, families=('plain', 'suffix-pair')):
     def body(ctx):
         # --- symbolic skeleton
         # stage of each component: non-decreasing, symbolic switch positions
         sw1 = ctx.choice('first_component_of_stage1', list(range(1, k + 1)))
-        sw2 = ctx.choice('first_component_of_stage2', list(range(sw1, k + 1))) if max_stage >= 2 and sw1 < k else k
+        # (stage 1 is never empty: the loader asserts that stage indices are contiguous, a gap is not a valid workflow)
+        sw2 = ctx.choice('first_component_of_stage2', list(range(sw1 + 1, k + 1))) if max_stage >= 2 and sw1 < k else k
         stages = [0 if i < sw1 else (1 if i < sw2 else 2) for i in range(k)]
         n_rep, via_var = ctx.choice('replicas', [(1, False), (2, False), (3, False), (2, True), (12, True)])
         rel_spelling = ctx.flag('relative_spelling_in_same_stage')
         files = ctx.flag('references_with_file_paths')
-        family = ctx.choice('names', ['plain', 'suffix-pair'])
+        family = ctx.choice('names', list(families))
         NAMES = NAME_FAMILIES[family]
         if family == 'suffix-pair':
             ctx.assume((n_rep, via_var) == (2, False) and not files)
@@ -149,7 +150,7 @@ def make_body(k, max_stage):
 
 
 def factory(param):
-    return make_body(param['k'], param['max_stage'])
+    return make_body(param['k'], param['max_stage'], tuple(param.get('families', ('plain', 'suffix-pair'))))
 
 
 def signature(param, assignment, message, detail):
@@ -198,8 +199,14 @@ def main(tier, seed, only=None):
     if not only or 'structure' in only:
         # the body realises every decision as a plain Python value before the code under test runs (no proxy crosses
         # into it), so the explored run *is* the native run: the second, identical execution is skipped here
-        s = explore_parallel('structure', factory, [{'k': k, 'max_stage': 1 if tier == 'quick' else 2, 'name': 'k%d' % k}],
-                             signature=signature, seed=seed, chunk=200, max_paths=max_paths, validate=False)
+        if tier == 'quick':
+            sparams = [{'k': k, 'max_stage': 1, 'name': 'k%d' % k}]
+        else:
+            # one parameter per name family so that a truncated run (budget / wall-clock cap) still gives each family its share
+            sparams = [{'k': k, 'max_stage': 2, 'families': ['plain'], 'name': 'k%d-plain' % k},
+                       {'k': k, 'max_stage': 2, 'families': ['suffix-pair'], 'name': 'k%d-suffix-pair' % k}]
+        s = explore_parallel('structure', factory, sparams, signature=signature, seed=seed, chunk=200, max_paths=max_paths, validate=False,
+                             per_param_max=max_paths // len(sparams))
         rep.add(s)
     else:
         rep.required_witnesses = []
